@@ -26,7 +26,7 @@ func init() {
 				c := f.Ctx()
 				// caches consulted / filled
 				got, added := map[types.Object]bool{}, map[types.Object]bool{}
-				ast.Inspect(f.Body(), func(x ast.Node) bool {
+				core.InspectBody(f, func(x ast.Node) bool {
 					call, ok := x.(*ast.CallExpr)
 					if !ok {
 						return true
